@@ -1,4 +1,1276 @@
-use vx::common::{CheckCtx, CheckResult};
-pub fn run(_ctx: &CheckCtx) -> CheckResult { CheckResult::new("exploration") }
-pub fn replay(_doc: &serde_json::Value) {}
-pub fn child(_a: &[String]) {}
+//! C11 — PCT: strict priorities, at most depth-1 change points, detection bound, exact iteration
+//! count, seed determinism.  Level: model checking — the reference model (pct_model.rs) is
+//! enumerated exhaustively (all priority orders x all change-point sets) and the real
+//! `PctScheduler` is compared with it decision by decision over abstract programs (E3) and a seed
+//! interval (E4).
+
+use crate::c10::within;
+use crate::par;
+use crate::pct_model::{
+    bugs, change_point_sets, consistent_with_some_order, model_distribution, num_points, parse_snapshot, permutations, Decision,
+    PctModel, ProgInfo, Snapshot,
+};
+use crate::rec;
+use crate::tasks::Universe;
+use crate::tree::{mix, ATree, CounterProg, ExecRec, Family, Labelling};
+use serde_json::{json, Value};
+use shuttle_engine::scheduler::{Schedule, Scheduler, Task, TaskId};
+use shuttle_schedulers::PctScheduler;
+use std::time::{Duration, Instant};
+use vx::common::{CheckCtx, CheckResult, Tier};
+
+pub enum Sut {
+    P(PctScheduler),
+    M(crate::mutants::PctCopy),
+}
+
+impl Sut {
+    pub fn new(seed: u64, depth: usize, iters: usize) -> Sut {
+        let m = crate::mutants::which();
+        if (300..400).contains(&m) {
+            return Sut::M(crate::mutants::PctCopy::new(m, seed, depth, iters));
+        }
+        Sut::P(PctScheduler::new_from_seed(seed, depth, iters))
+    }
+    /// read-only view of the internals through the derived Debug implementation
+    pub fn snapshot(&self) -> Option<Snapshot> {
+        let s = match self {
+            Sut::P(p) => format!("{:?}", p),
+            Sut::M(p) => format!("{:?}", p),
+        };
+        parse_snapshot(&s)
+    }
+}
+
+impl Scheduler for Sut {
+    fn new_execution(&mut self) -> Option<Schedule> {
+        match self {
+            Sut::P(s) => s.new_execution(),
+            Sut::M(s) => s.new_execution(),
+        }
+    }
+    fn next_task(&mut self, r: &[&Task], c: Option<TaskId>, y: bool) -> Option<TaskId> {
+        match self {
+            Sut::P(s) => s.next_task(r, c, y),
+            Sut::M(s) => s.next_task(r, c, y),
+        }
+    }
+    fn next_u64(&mut self) -> u64 {
+        match self {
+            Sut::P(s) => s.next_u64(),
+            Sut::M(s) => s.next_u64(),
+        }
+    }
+}
+
+#[derive(Default, Clone, Debug)]
+pub struct PStats {
+    pub cases: u64,
+    pub executions: u64,
+    pub decisions: u64,
+    /// executions (iteration >= 2) matched decision by decision against the reference model
+    pub matched: u64,
+    pub snapshots: u64,
+    pub nfa_checked: u64,
+    pub creations: u64,
+    pub change_points_fired: u64,
+    pub yield_demotions: u64,
+    pub capped: bool,
+}
+
+impl PStats {
+    fn add(&mut self, o: &PStats) {
+        self.cases += o.cases;
+        self.executions += o.executions;
+        self.decisions += o.decisions;
+        self.matched += o.matched;
+        self.snapshots += o.snapshots;
+        self.nfa_checked += o.nfa_checked;
+        self.creations += o.creations;
+        self.change_points_fired += o.change_points_fired;
+        self.yield_demotions += o.yield_demotions;
+        self.capped |= o.capped;
+    }
+}
+
+fn guarded<T>(f: impl FnOnce() -> Result<T, String>) -> Result<T, String> {
+    match std::panic::catch_unwind(std::panic::AssertUnwindSafe(f)) {
+        Ok(r) => r,
+        Err(e) => Err(format!("scheduler panicked: {}", rec::payload_text(&e))),
+    }
+}
+
+/// longest common subsequence length (tiny inputs)
+fn lcs(a: &[u8], b: &[u8]) -> usize {
+    let mut dp = vec![vec![0usize; b.len() + 1]; a.len() + 1];
+    for i in 0..a.len() {
+        for j in 0..b.len() {
+            dp[i + 1][j + 1] = if a[i] == b[j] { dp[i][j] + 1 } else { dp[i][j + 1].max(dp[i + 1][j]) };
+        }
+    }
+    dp[a.len()][b.len()]
+}
+
+/// Drive PCT over `tree` for `iters` iterations with the full oracle.
+/// `nfa_ids`: size of the id universe for the statement-level oracle (0 = skip it).
+#[allow(clippy::too_many_arguments)]
+pub fn pct_checked<'u>(
+    seed: u64,
+    depth: usize,
+    iters: usize,
+    tree: &ATree,
+    uni: &'u Universe,
+    nfa: Option<(usize, &[Vec<u8>])>,
+    deep: bool,
+    st: &mut PStats,
+) -> Result<Vec<ExecRec>, String> {
+    let mut s = Sut::new(seed, depth, iters);
+    let mut buf: Vec<&Task> = Vec::with_capacity(4);
+    let mut out: Vec<ExecRec> = Vec::with_capacity(iters);
+    let mut est_k = 0usize; // our own count of the maximum number of multi-choice steps seen so far
+    let mut trace: Vec<Decision> = Vec::new();
+    for it in 0..=iters {
+        let sch = s.new_execution();
+        if it == iters {
+            if sch.is_some() {
+                return Err(format!("a {}th execution was started with max_iterations={}", it + 1, iters));
+            }
+            break;
+        }
+        let sch = match sch {
+            Some(x) => x,
+            None => return Err(format!("only {} executions with max_iterations={}", it, iters)),
+        };
+        st.executions += 1;
+        let mut model: Option<PctModel> = None;
+        if it >= 1 && std::env::var("VX_NOSNAP").is_err() {
+            let snap = s.snapshot().ok_or("MACHINERY cannot parse the scheduler's Debug output")?;
+            st.snapshots += 1;
+            if snap.max_steps != est_k {
+                return Err(format!(
+                    "iteration {}: the scheduler's estimate of k is {} but the executions so far had at most {} multi-choice steps",
+                    it + 1,
+                    snap.max_steps,
+                    est_k
+                ));
+            }
+            let want = num_points(depth, est_k);
+            let mut cps = snap.change_points.clone();
+            cps.sort_unstable();
+            cps.dedup();
+            if snap.change_points.len() != want || cps.len() != want || cps.iter().any(|c| *c < 1 || *c >= est_k) {
+                return Err(format!(
+                    "iteration {}: change points {:?} with depth {} and k={}: expected {} distinct points in [1, {})",
+                    it + 1,
+                    snap.change_points,
+                    depth,
+                    est_k,
+                    want,
+                    est_k
+                ));
+            }
+            if !snap.distinct_priorities() || snap.steps != 0 {
+                return Err(format!("iteration {}: priorities not distinct or steps != 0 at the start: {:?}", it + 1, snap));
+            }
+            model = Some(PctModel {
+                order: snap.order(),
+                change_points: snap.change_points.clone(),
+                steps: 0,
+                max_steps: est_k,
+            });
+        }
+        // drive one execution
+        let mut r = ExecRec {
+            seed: sch.seed,
+            ..Default::default()
+        };
+        trace.clear();
+        let mut at = 0u16;
+        let mut current: Option<u8> = None;
+        let mut multi = 0usize;
+        loop {
+            let nd = &tree.nodes[at as usize];
+            if nd.arity == 0 {
+                break;
+            }
+            let ar = nd.arity as usize;
+            let off = &nd.ids[..ar];
+            uni.offer(off, &mut buf);
+            let got = s
+                .next_task(&buf[..], current.map(|c| TaskId::from(c as usize)), nd.yielding)
+                .ok_or_else(|| format!("next_task returned None at node {}", at))?;
+            let gid = usize::from(got) as u8;
+            let pos = off
+                .iter()
+                .position(|x| *x == gid)
+                .ok_or_else(|| format!("task {} not offered at node {}", gid, at))?;
+            st.decisions += 1;
+            if ar > 1 {
+                multi += 1;
+            }
+            if let Some(m) = model.as_mut() {
+                let before = m.clone();
+                let all_known = off.iter().all(|t| m.knows(*t));
+                if all_known {
+                    let predicted = m.decide(off, current, nd.yielding);
+                    let fired = ar > 1 && before.change_points.contains(&before.steps);
+                    if fired {
+                        st.change_points_fired += 1;
+                    }
+                    if ar > 1 && nd.yielding {
+                        st.yield_demotions += 1;
+                    }
+                    let mut ok = predicted == gid;
+                    if deep {
+                        let snap = s.snapshot().ok_or("MACHINERY cannot parse the scheduler's Debug output")?;
+                        st.snapshots += 1;
+                        let so = snap.order();
+                        let so_known: Vec<u8> = so.iter().copied().filter(|t| before.knows(*t)).collect();
+                        let mut allowed = so_known == m.order;
+                        if !allowed && nd.yielding && !fired {
+                            // the statement permits, but does not require, a change when the running task yields
+                            allowed = so_known == before.order;
+                            if allowed {
+                                m.order = before.order.clone();
+                            }
+                        }
+                        if !allowed {
+                            return Err(format!(
+                                "iteration {} decision {} (offered {:?}, current {:?}, yielding {}, step counter {}, change points {:?}): priority order became {:?}, the model allows {:?}",
+                                it + 1, trace.len(), off, current, nd.yielding, before.steps, before.change_points, so_known, m.order
+                            ));
+                        }
+                        if snap.steps != m.steps {
+                            return Err(format!(
+                                "iteration {} decision {} (offered {:?}): the scheduler counts {} steps, the model {} multi-choice steps",
+                                it + 1, trace.len(), off, snap.steps, m.steps
+                            ));
+                        }
+                        let top = m.order.iter().find(|t| off.contains(t)).copied();
+                        ok = top == Some(gid);
+                    }
+                    if !ok {
+                        return Err(format!(
+                            "iteration {} decision {} (offered {:?}, current {:?}, yielding {}): PctScheduler chose task {}, the reference model chooses {} (model order before the decision {:?}, change points {:?}, step counter {})",
+                            it + 1, trace.len(), off, current, nd.yielding, gid, predicted, before.order, before.change_points, before.steps
+                        ));
+                    }
+                } else {
+                    // task creation (ids >= 16): the new task's place is random; re-synchronise from a
+                    // snapshot and check that nothing else moved except (per new task) one task that
+                    // went to the lowest priority, and `current` if a change point / yield applies
+                    st.creations += 1;
+                    let snap = s.snapshot().ok_or("MACHINERY cannot parse the scheduler's Debug output")?;
+                    st.snapshots += 1;
+                    if !snap.distinct_priorities() {
+                        return Err(format!("iteration {} decision {}: priorities not distinct after task creation", it + 1, trace.len()));
+                    }
+                    let so = snap.order();
+                    let new_ids = so.iter().filter(|t| !before.knows(**t)).count();
+                    let so_old: Vec<u8> = so.iter().copied().filter(|t| before.knows(*t)).collect();
+                    let may_demote = ar > 1 && (nd.yielding || before.change_points.contains(&before.steps));
+                    let moved = before.order.len() - lcs(&before.order, &so_old);
+                    if so_old.len() != before.order.len() || moved > new_ids + usize::from(may_demote) {
+                        return Err(format!(
+                            "iteration {} decision {} (offered {:?}): creating {} task(s) moved {} existing priorities: before {:?} after {:?}",
+                            it + 1, trace.len(), off, new_ids, moved, before.order, so_old
+                        ));
+                    }
+                    let top = so.iter().find(|t| off.contains(t)).copied();
+                    if top != Some(gid) {
+                        return Err(format!(
+                            "iteration {} decision {} (offered {:?}): chose {} but the highest-priority offered task is {:?} (order {:?})",
+                            it + 1, trace.len(), off, gid, top, so
+                        ));
+                    }
+                    m.order = so;
+                    if ar > 1 {
+                        m.steps += 1;
+                    }
+                    if snap.steps != m.steps {
+                        return Err(format!("iteration {} decision {}: step counter {} vs model {}", it + 1, trace.len(), snap.steps, m.steps));
+                    }
+                }
+            }
+            trace.push(Decision {
+                offered: off.to_vec(),
+                current,
+                yielding: nd.yielding,
+                chosen: gid,
+            });
+            r.choices.push(gid);
+            current = Some(gid);
+            at = nd.kids[pos];
+        }
+        r.end = at;
+        if multi > est_k {
+            est_k = multi;
+        }
+        if it >= 1 {
+            st.matched += 1;
+            if let Some((n, perms)) = nfa {
+                st.nfa_checked += 1;
+                if let Err(i) = consistent_with_some_order(&trace, n, depth, perms) {
+                    return Err(format!(
+                        "iteration {}: decision {} ({:?}) is not explained by ANY strict priority order over {} tasks that changes only at yields and at <= {} change points demoting the running task; trace {:?}",
+                        it + 1, i, trace[i], n, depth - 1, trace
+                    ));
+                }
+            }
+        }
+        out.push(r);
+    }
+    Ok(out)
+}
+
+/// unchecked run (for the determinism comparison)
+fn pct_plain<'u>(seed: u64, depth: usize, iters: usize, tree: &ATree, uni: &'u Universe) -> Result<Vec<ExecRec>, String> {
+    let mut s = Sut::new(seed, depth, iters);
+    let mut buf: Vec<&Task> = Vec::with_capacity(4);
+    let mut out = Vec::new();
+    while let Some(sch) = s.new_execution() {
+        if out.len() > iters {
+            return Err("too many executions".into());
+        }
+        let mut r = ExecRec {
+            seed: sch.seed,
+            ..Default::default()
+        };
+        crate::tree::drive(&mut s, tree, uni, None, false, &mut buf, &mut r).map_err(|e| format!("{:?}", e))?;
+        out.push(r);
+    }
+    Ok(out)
+}
+
+struct Case<'a> {
+    name: String,
+    tree: &'a ATree,
+    nfa_ids: usize,
+}
+
+fn one_case(c: &Case, seed: u64, depth: usize, iters: usize, uni: &Universe, perms: &[Vec<Vec<u8>>], deep: bool, st: &mut PStats) -> Result<(), String> {
+    st.cases += 1;
+    let nfa = if c.nfa_ids > 0 && c.nfa_ids < perms.len() {
+        Some((c.nfa_ids, &perms[c.nfa_ids][..]))
+    } else {
+        None
+    };
+    let a = guarded(|| pct_checked(seed, depth, iters, c.tree, uni, nfa, deep, st))?;
+    let b = guarded(|| pct_plain(seed, depth, iters, c.tree, uni))?;
+    if a != b {
+        return Err("two instances with the same seed produce different runs".into());
+    }
+    Ok(())
+}
+
+fn replay_json(seed: u64, depth: usize, iters: usize, tree: &ATree, nfa_ids: usize) -> Value {
+    json!({"kind":"abstract-pct","seed":seed.to_string(),"depth":depth,"iterations":iters,"tree":tree.to_json(),"nfa_ids":nfa_ids})
+}
+
+type Problems = Vec<(String, String, Value)>;
+
+fn fixed_programs() -> Vec<(String, ATree, usize)> {
+    let mut v: Vec<(String, ATree, usize)> = Vec::new();
+    for (steps, spawn, yields) in [
+        (vec![2u8, 2], false, vec![0u8, 0]),
+        (vec![2, 2], false, vec![1, 2]),
+        (vec![1, 1, 1], false, vec![0, 0, 0]),
+        (vec![2, 2, 2], false, vec![0, 1, 0]),
+        (vec![3, 3], false, vec![2, 0]),
+        (vec![1, 1, 1, 1], false, vec![0, 0, 0, 0]),
+        (vec![1, 2, 2], true, vec![0, 0, 0]),
+        (vec![1, 1, 1, 1], true, vec![0, 1, 0, 0]),
+        (vec![2, 3], true, vec![4, 0]),
+    ] {
+        let n = steps.len();
+        let p = CounterProg { steps, spawn, yields };
+        v.push((p.name(), p.tree(), n));
+    }
+    let f33 = Family::new(3, 3);
+    let f42 = Family::new(4, 2);
+    let y0 = Labelling {
+        scheme: 0,
+        universe: 4,
+        yields: true,
+        draws: false,
+    };
+    let rich = Labelling {
+        scheme: 2,
+        universe: 5,
+        yields: true,
+        draws: false,
+    };
+    v.push(("full-3ary-depth3/ids0..+yields".into(), f33.build(f33.size() - 1, &y0), 3));
+    v.push(("full-2ary-depth4/current-stays-u5+yields".into(), f42.build(f42.size() - 1, &rich), 5));
+    v
+}
+
+/// F1: every seed of the interval x fixed programs x depth 1..4, 4 iterations each
+fn sweep_seeds(s0: u64, n: u64, nthreads: usize, deadline: Instant) -> (PStats, Problems) {
+    let progs = fixed_programs();
+    let perms: Vec<Vec<Vec<u8>>> = (0..=6).map(permutations).collect();
+    let outs = par::shards(nthreads, |shard, ns| {
+        let uni = Universe::flat(16);
+        let mut st = PStats::default();
+        let mut problems: Problems = Vec::new();
+        let mut k = shard as u64;
+        while k < n {
+            if (k / ns as u64) % 64 == 0 && Instant::now() > deadline {
+                st.capped = true;
+                break;
+            }
+            let seed = s0.wrapping_add(k);
+            for (name, tree, nids) in &progs {
+                let c = Case {
+                    name: name.clone(),
+                    tree,
+                    nfa_ids: *nids,
+                };
+                for depth in 1..=4usize {
+                    if let Err(what) = one_case(&c, seed, depth, 4, &uni, &perms, true, &mut st) {
+                        if problems.len() < 2 {
+                            problems.push((
+                                format!("abstract-pct:{}:seed{}:d{}", c.name, seed, depth),
+                                format!("PctScheduler seed {} depth {} on abstract program {}: {}", seed, depth, c.name, what),
+                                replay_json(seed, depth, 4, tree, *nids),
+                            ));
+                        }
+                    }
+                }
+            }
+            k += ns as u64;
+        }
+        (st, problems)
+    });
+    merge(outs)
+}
+
+fn merge(outs: Vec<(PStats, Problems)>) -> (PStats, Problems) {
+    let mut st = PStats::default();
+    let mut ps = Vec::new();
+    for (s, p) in outs {
+        st.add(&s);
+        ps.extend(p);
+    }
+    (st, ps)
+}
+
+/// F2: every tree shape of a family x labelling x depth 1..4 x seeds from the interval
+#[allow(clippy::too_many_arguments)]
+fn sweep_trees(
+    fam: &Family,
+    lab: &Labelling,
+    nfa_ids: usize,
+    universe: usize,
+    seeds_per: u64,
+    depths: &[usize],
+    s0: u64,
+    n: u64,
+    nthreads: usize,
+    deadline: Instant,
+) -> (PStats, Problems, u64) {
+    let perms: Vec<Vec<Vec<u8>>> = (0..=6).map(permutations).collect();
+    let outs = par::shards(nthreads, |shard, ns| {
+        let uni = Universe::flat(universe);
+        let mut st = PStats::default();
+        let mut problems: Problems = Vec::new();
+        let mut trees = 0u64;
+        let mut x = shard as u128;
+        let mut c = 0u64;
+        while x < fam.size() {
+            c += 1;
+            if c % 256 == 0 && Instant::now() > deadline {
+                st.capped = true;
+                break;
+            }
+            let tree = fam.build(x, lab);
+            if tree.leaves >= 2 {
+                // PCT documents a panic for bodies without any multi-choice step: excluded
+                trees += 1;
+                let case = Case {
+                    name: format!("d{}b{}:{}:{}", fam.d, fam.b, lab.name(), x),
+                    tree: &tree,
+                    nfa_ids,
+                };
+                for &depth in depths {
+                    for j in 0..seeds_per {
+                        let seed = s0.wrapping_add(mix((x as u64) ^ ((depth as u64) << 48) ^ (j << 52)) % n);
+                        if let Err(what) = one_case(&case, seed, depth, 3, &uni, &perms, true, &mut st) {
+                            if problems.len() < 2 {
+                                problems.push((
+                                    format!("abstract-pct:{}:seed{}:d{}", case.name, seed, depth),
+                                    format!("PctScheduler seed {} depth {} on tree #{} of depth<={}/branching<={} ({}): {}", seed, depth, x, fam.d, fam.b, lab.name(), what),
+                                    replay_json(seed, depth, 3, &tree, nfa_ids),
+                                ));
+                            }
+                        }
+                    }
+                }
+            }
+            x += ns as u128;
+        }
+        (st, problems, trees)
+    });
+    let mut trees = 0;
+    let mut o2 = Vec::new();
+    for (s, p, t) in outs {
+        trees += t;
+        o2.push((s, p));
+    }
+    let (st, ps) = merge(o2);
+    (st, ps, trees)
+}
+
+// ------------------------------------------------------------------------------------------------
+// probability bound: exhaustive model enumeration + seed-interval conformance
+// ------------------------------------------------------------------------------------------------
+
+fn bug_programs() -> Vec<CounterProg> {
+    let mk = |steps: Vec<u8>, spawn: bool| {
+        let n = steps.len();
+        CounterProg {
+            steps,
+            spawn,
+            yields: vec![0; n],
+        }
+    };
+    vec![
+        // steps = 1 prologue step + operations (flat); spawn: main = n-1 spawn steps + operations
+        mk(vec![3, 3], false),
+        mk(vec![2, 2, 2], false),
+        mk(vec![3, 2, 2], false),
+        mk(vec![2, 2, 2, 2], false),
+        mk(vec![1, 3, 2], true),
+        mk(vec![1, 2, 2, 2], true),
+    ]
+}
+
+struct ProbOut {
+    rows: Vec<Value>,
+    problems: Problems,
+    states: u64,
+    transitions: u64,
+    bugs_checked: u64,
+    samples: u64,
+    executions: u64,
+    cells: u64,
+    machinery: Vec<String>,
+}
+
+const PROB_ITERS: usize = 10;
+
+fn probability(s0: u64, n: u64, nthreads: usize) -> ProbOut {
+    let mut out = ProbOut {
+        rows: Vec::new(),
+        problems: Vec::new(),
+        states: 0,
+        transitions: 0,
+        bugs_checked: 0,
+        samples: 0,
+        executions: 0,
+        cells: 0,
+        machinery: Vec::new(),
+    };
+    for prog in bug_programs() {
+        let pi = ProgInfo::realistic(prog.clone());
+
+        let nt = prog.n();
+        let perms = permutations(nt);
+        let all_bugs = bugs(&pi, 3);
+        let k_max = pi.k;
+        let k_total = pi.total_steps();
+        for d in 1..=3usize {
+            // the estimate PCT settles at for this depth (<= the maximum over all schedules)
+            let mut pi = ProgInfo::realistic(prog.clone());
+            pi.k = crate::pct_model::settled_k(&pi, d, &perms);
+            let pi = pi;
+            // (i) exact hit probability of the model
+            let (cnt, total) = model_distribution(&pi, d, &perms, &mut out.states, &mut out.transitions);
+            // the statement's k = "scheduling steps" of the program: all of them (the k of the PCT
+            // paper), which is the weakest reading; the ratio against the estimate is reported too
+            let kpow = (k_total as u64).pow(d as u32 - 1);
+            let kpow_est = (pi.k as u64).pow(d as u32 - 1);
+            let mut worst: Option<(f64, &crate::pct_model::Bug)> = None;
+            let mut worst_est = f64::INFINITY;
+            let mut nb = 0u64;
+            let mut below: Vec<(f64, u64, &crate::pct_model::Bug)> = Vec::new();
+            for b in all_bugs.iter().filter(|b| b.depth == d) {
+                nb += 1;
+                let hits: u64 = (0..pi.leaves.len()).filter(|l| b.leaves.get(*l)).map(|l| cnt[l]).sum();
+                // hits/total >= 1/(n * k^(d-1))
+                let ratio = hits as f64 * (nt as u64 * kpow) as f64 / total as f64;
+                worst_est = worst_est.min(hits as f64 * (nt as u64 * kpow_est) as f64 / total as f64);
+                if worst.as_ref().map(|w| ratio < w.0).unwrap_or(true) {
+                    worst = Some((ratio, b));
+                }
+                if hits * nt as u64 * kpow < total {
+                    below.push((ratio, hits, b));
+                }
+            }
+            if !below.is_empty() {
+                below.sort_by(|x, y| x.0.partial_cmp(&y.0).unwrap());
+                let (_, hits, b) = &below[0];
+                let scheds: Vec<Vec<u8>> = (0..pi.leaves.len())
+                    .filter(|l| b.leaves.get(*l))
+                    .take(4)
+                    .map(|l| pi.tree.nodes_choices(pi.leaves[l]))
+                    .collect();
+                out.problems.push((
+                    format!("pct-bound:{}:d{}", prog.name(), d),
+                    format!(
+                        "program {} (n={} tasks, {} scheduling steps, estimate of k settles at {}), depth {}: {} of the {} bugs that need exactly {} ordering constraints are hit with probability below 1/(n*k^(d-1)) = {:.4} (k = all {} scheduling steps). Tightest: the bug 'schedules satisfying {:?}' (task sequences {:?}) has exact probability {}/{} = {:.4} in the reference model (all {} priority orders x all {} change-point sets); the implementation's frequencies over the seed interval agree with the model",
+                        prog.name(), nt, k_total, pi.k, d, below.len(), nb, d, 1.0 / (nt as u64 * kpow) as f64, k_total,
+                        b.constraints, scheds, hits, total, *hits as f64 / total as f64, perms.len(), total as usize / perms.len()
+                    ),
+                    json!({"kind":"pct-bound","prog":prog.to_json(),"depth":d,"constraints":b.constraints,"s0":s0.to_string(),"n":n.min(1 << 14)}),
+                ));
+            }
+            out.bugs_checked += nb;
+
+            // (ii) the implementation over the seed interval, iterations with a settled estimate
+            let sets = change_point_sets(pi.k, num_points(d, pi.k));
+            let ncell = perms.len() * sets.len();
+            let outs = par::shards(nthreads, |shard, ns| {
+                let uni = Universe::flat(16);
+                let mut buf: Vec<&Task> = Vec::with_capacity(4);
+                let mut cell = vec![0u64; ncell];
+                let mut leaf = vec![0u64; pi.leaves.len()];
+                let mut samples = 0u64;
+                let mut execs = 0u64;
+                let mut errs: Vec<String> = Vec::new();
+                let mut k = shard as u64;
+                while k < n {
+                    let seed = s0.wrapping_add(k);
+                    let r = guarded(|| {
+                        let mut s = Sut::new(seed, d, PROB_ITERS);
+                        let mut rec = ExecRec::default();
+                        for it in 0..PROB_ITERS {
+                            s.new_execution().ok_or("too few executions")?;
+                            execs += 1;
+                            let mut settled: Option<usize> = None;
+                            if it >= 1 {
+                                let snap = s.snapshot().ok_or("MACHINERY cannot parse the scheduler's Debug output")?;
+                                if snap.max_steps == pi.k {
+                                    let ord: Vec<u8> = snap.order().into_iter().filter(|t| (*t as usize) < nt).collect();
+                                    let mut cps = snap.change_points.clone();
+                                    cps.sort_unstable();
+                                    let oi = perms.iter().position(|p| *p == ord).ok_or("order not a permutation of the live ids")?;
+                                    let ci = sets.iter().position(|c| *c == cps).ok_or_else(|| format!("change points {:?} are not a {}-subset of [1,{})", cps, num_points(d, pi.k), pi.k))?;
+                                    settled = Some(oi * sets.len() + ci);
+                                }
+                            }
+                            crate::tree::drive(&mut s, &pi.tree, &uni, None, false, &mut buf, &mut rec).map_err(|e| format!("{:?}", e))?;
+                            if let Some(ci) = settled {
+                                cell[ci] += 1;
+                                leaf[pi.leaf_index[rec.end as usize] as usize] += 1;
+                                samples += 1;
+                            }
+                        }
+                        Ok(())
+                    });
+                    if let Err(e) = r {
+                        if errs.len() < 2 {
+                            errs.push(format!("seed {}: {}", seed, e));
+                        }
+                    }
+                    k += ns as u64;
+                }
+                (cell, leaf, samples, execs, errs)
+            });
+            let mut cell = vec![0u64; ncell];
+            let mut leaf = vec![0u64; pi.leaves.len()];
+            let mut samples = 0u64;
+            for (c, l, s, e, errs) in outs {
+                for (a, b) in cell.iter_mut().zip(c.iter()) {
+                    *a += *b;
+                }
+                for (a, b) in leaf.iter_mut().zip(l.iter()) {
+                    *a += *b;
+                }
+                samples += s;
+                out.executions += e;
+                for e in errs {
+                    if e.contains("MACHINERY") {
+                        out.machinery.push(e);
+                    } else {
+                        out.problems.push((
+                            format!("pct-sampling-error:{}:d{}", prog.name(), d),
+                            format!("PctScheduler depth {} on bug program {}: {}", d, prog.name(), e),
+                            json!({"kind":"pct-frequency","prog":prog.to_json(),"depth":d,"s0":s0.to_string(),"n":n}),
+                        ));
+                    }
+                }
+            }
+            out.samples += samples;
+            if samples == 0 {
+                out.machinery.push(format!("bug program {} depth {}: the scheduler's estimate never equals the settled value {} predicted by the model in {} iterations x {} seeds", prog.name(), d, pi.k, PROB_ITERS, n));
+            }
+            // every (order, change-point set) is realised, uniformly
+            let mut worst_cell_z = 0f64;
+            let mut bad_cell: Option<String> = None;
+            for (ci, c) in cell.iter().enumerate() {
+                out.cells += 1;
+                let p = 1.0 / ncell as f64;
+                let sd = (samples as f64 * p * (1.0 - p)).sqrt();
+                let z = if sd > 0.0 { (*c as f64 - samples as f64 * p) / sd } else { 0.0 };
+                worst_cell_z = worst_cell_z.max(z.abs());
+                if (*c == 0 || !within(*c, samples, p)) && bad_cell.is_none() && ncell > 1 {
+                    bad_cell = Some(format!(
+                        "priority order {:?} with change points {:?} was drawn {} times in {} settled iterations (expected {:.0}, z={:.1})",
+                        perms[ci / sets.len()], sets[ci % sets.len()], c, samples, samples as f64 * p, z
+                    ));
+                }
+            }
+            if let Some(b) = bad_cell {
+                out.problems.push((
+                    format!("pct-choice-frequency:{}:d{}", prog.name(), d),
+                    format!("PctScheduler depth {} on {} (n={}, k={}): {}", d, prog.name(), nt, pi.k, b),
+                    json!({"kind":"pct-frequency","prog":prog.to_json(),"depth":d,"s0":s0.to_string(),"n":n}),
+                ));
+            }
+            // leaf (hence bug) frequencies equal the model's
+            let mut worst_leaf_z = 0f64;
+            let mut bad_leaf: Option<String> = None;
+            for l in 0..pi.leaves.len() {
+                out.cells += 1;
+                let p = cnt[l] as f64 / total as f64;
+                let sd = (samples as f64 * p * (1.0 - p)).sqrt();
+                let z = if sd > 0.0 {
+                    (leaf[l] as f64 - samples as f64 * p) / sd
+                } else if (leaf[l] as f64 - samples as f64 * p).abs() < 0.5 {
+                    0.0
+                } else {
+                    f64::INFINITY
+                };
+                if z.is_finite() {
+                    worst_leaf_z = worst_leaf_z.max(z.abs());
+                }
+                // +3 absolute slack: the normal approximation is poor for schedules with a tiny probability
+                let off = (leaf[l] as f64 - samples as f64 * p).abs();
+                if (off > 6.5 * sd + 3.0 || !z.is_finite()) && bad_leaf.is_none() {
+                    bad_leaf = Some(format!(
+                        "schedule {:?} was produced {} times in {} settled iterations, the model's exact probability {}/{} predicts {:.0} (z={:.1})",
+                        pi.tree.path_to(pi.leaves[l]), leaf[l], samples, cnt[l], total, samples as f64 * p, z
+                    ));
+                }
+            }
+            if let Some(b) = bad_leaf {
+                out.problems.push((
+                    format!("pct-hit-frequency:{}:d{}", prog.name(), d),
+                    format!("PctScheduler depth {} on {} (n={}, k={}): {}", d, prog.name(), nt, pi.k, b),
+                    json!({"kind":"pct-frequency","prog":prog.to_json(),"depth":d,"s0":s0.to_string(),"n":n}),
+                ));
+            }
+            let (wr, wb) = match &worst {
+                Some((r, b)) => (*r, format!("{:?}", b.constraints)),
+                None => (f64::NAN, String::new()),
+            };
+            // measured hit rate of the worst bug
+            let worst_hits: u64 = worst
+                .as_ref()
+                .map(|(_, b)| (0..pi.leaves.len()).filter(|l| b.leaves.get(*l)).map(|l| leaf[l]).sum())
+                .unwrap_or(0);
+            out.rows.push(json!({
+                "program": prog.name(), "n": nt, "k_settled_estimate": pi.k, "k_max_multi_choice": k_max, "k_scheduling_steps": k_total, "schedules": pi.leaves.len(), "depth": d,
+                "min_model_probability_over_bound_with_k_estimate": if worst_est.is_finite() { json!((worst_est * 1000.0).round() / 1000.0) } else { Value::Null },
+                "model_pairs_enumerated": total, "bugs_of_this_depth": nb,
+                "min_model_probability_over_bound": if wr.is_nan() { Value::Null } else { json!((wr * 1000.0).round() / 1000.0) },
+                "tightest_bug": wb,
+                "tightest_bug_measured_hit_rate": if samples > 0 { json!(((worst_hits as f64 / samples as f64) * 10000.0).round() / 10000.0) } else { Value::Null },
+                "bound": (1.0 / (nt as u64 * kpow) as f64 * 10000.0).round() / 10000.0,
+                "settled_iterations_sampled": samples,
+                "choice_cells": ncell, "worst_choice_cell_abs_z": (worst_cell_z * 100.0).round() / 100.0,
+                "worst_leaf_abs_z": if worst_leaf_z.is_finite() { json!((worst_leaf_z * 100.0).round() / 100.0) } else { json!("inf") },
+            }));
+        }
+    }
+    out
+}
+
+/// Informational only (never a finding): programs in which a task's *first* scheduled step already
+/// has an observable effect.  In the runtime a task is `current` — and can be demoted — only after
+/// it has run once, and operations sit behind scheduling points, so such programs need an effect
+/// without a preceding scheduling point.  For them some schedules are unreachable for PCT.
+fn first_step_event_programs() -> Vec<Value> {
+    let mk = |steps: Vec<u8>, spawn: bool| {
+        let n = steps.len();
+        CounterProg {
+            steps,
+            spawn,
+            yields: vec![0; n],
+        }
+    };
+    let mut rows = Vec::new();
+    for prog in [mk(vec![2, 1, 1], false), mk(vec![2, 2, 2], false), mk(vec![1, 1, 1], true)] {
+        let base = ProgInfo::new(prog.clone());
+        let perms = permutations(prog.n());
+        let all_bugs = bugs(&base, 3);
+        for d in 1..=3usize {
+            let mut pi = ProgInfo::new(prog.clone());
+            pi.k = crate::pct_model::settled_k(&pi, d, &perms);
+            let (mut st, mut tr) = (0u64, 0u64);
+            let (cnt, total) = model_distribution(&pi, d, &perms, &mut st, &mut tr);
+            let kpow = (pi.total_steps() as u64).pow(d as u32 - 1);
+            let mut nb = 0;
+            let mut below = 0;
+            let mut zero = 0;
+            let mut example: Option<Vec<Vec<u8>>> = None;
+            for b in all_bugs.iter().filter(|b| b.depth == d) {
+                nb += 1;
+                let hits: u64 = (0..pi.leaves.len()).filter(|l| b.leaves.get(*l)).map(|l| cnt[l]).sum();
+                if hits * prog.n() as u64 * kpow < total {
+                    below += 1;
+                    if hits == 0 {
+                        zero += 1;
+                        if example.is_none() {
+                            example = Some((0..pi.leaves.len()).filter(|l| b.leaves.get(*l)).take(3).map(|l| pi.tree.nodes_choices(pi.leaves[l])).collect());
+                        }
+                    }
+                }
+            }
+            let unreachable = cnt.iter().filter(|c| **c == 0).count();
+            rows.push(json!({"program":prog.name(),"depth":d,"bugs_of_this_depth":nb,"bugs_below_bound":below,"bugs_with_probability_zero":zero,
+                "schedules":pi.leaves.len(),"schedules_pct_can_never_produce_at_this_depth":unreachable,"example_unreachable_bug_task_sequences":example}));
+        }
+    }
+    rows
+}
+
+// ------------------------------------------------------------------------------------------------
+// real runtime child
+// ------------------------------------------------------------------------------------------------
+
+const REAL_BODIES: &[&str] = &["atomic-2x2", "atomic-3x1", "branchy", "yield-spin", "mutex-2x1", "nested-spawn", "draws"];
+
+fn real_case(bname: &str, seed: u64, depth: usize, iters: usize, perms: &[Vec<Vec<u8>>]) -> Result<(u64, u64, u64), String> {
+    let body = rec::body(bname).unwrap();
+    let (a, pa) = rec::record_run(PctScheduler::new_from_seed(seed, depth, iters), &body, rec::quiet_config());
+    let (b, pb) = rec::record_run(PctScheduler::new_from_seed(seed, depth, iters), &body, rec::quiet_config());
+    if let Some(p) = pa.or(pb) {
+        return Err(format!("run panicked: {}", p));
+    }
+    if a.execs.len() != iters || !a.ended {
+        return Err(format!("{} executions for max_iterations={}", a.execs.len(), iters));
+    }
+    if a.execs != b.execs {
+        return Err("two runs with the same seed differ".into());
+    }
+    // statement-level oracle on the real decision traces
+    let n = a.parents.len();
+    let mut nfa = 0u64;
+    if n < perms.len() {
+        for (i, e) in a.execs.iter().enumerate().skip(1) {
+            let trace: Vec<Decision> = e
+                .evs
+                .iter()
+                .filter_map(|ev| match ev {
+                    rec::Ev::Task {
+                        offered,
+                        current,
+                        yielding,
+                        chosen: Some(c),
+                    } => Some(Decision {
+                        offered: offered.clone(),
+                        current: *current,
+                        yielding: *yielding,
+                        chosen: *c,
+                    }),
+                    _ => None,
+                })
+                .collect();
+            nfa += 1;
+            if let Err(j) = consistent_with_some_order(&trace, n, depth, &perms[n]) {
+                return Err(format!(
+                    "iteration {}: decision {} ({:?}) is not explained by any strict priority order with <= {} change points; trace {:?}",
+                    i + 1, j, trace[j], depth - 1, trace
+                ));
+            }
+        }
+    }
+    let calls = rec::replay_abstract(&a, &mut PctScheduler::new_from_seed(seed, depth, iters))
+        .map_err(|e| format!("MACHINERY abstract driver does not reproduce the runtime run: {}", e))?;
+    Ok(((a.execs.len() + b.execs.len()) as u64, calls, nfa))
+}
+
+fn child_real(a: &[String]) {
+    vx::common::silence_panics();
+    let lo: u64 = a[1].parse().unwrap();
+    let hi: u64 = a[2].parse().unwrap();
+    let perms: Vec<Vec<Vec<u8>>> = (0..=6).map(permutations).collect();
+    let (mut execs, mut calls, mut cases, mut nfa) = (0u64, 0u64, 0u64, 0u64);
+    let mut problems: Vec<Value> = Vec::new();
+    let mut k = lo;
+    while k != hi {
+        for b in REAL_BODIES {
+            for depth in 1..=3usize {
+                cases += 1;
+                match real_case(b, k, depth, 4, &perms) {
+                    Ok((e, c, f)) => {
+                        execs += e;
+                        calls += c;
+                        nfa += f;
+                    }
+                    Err(what) => {
+                        if problems.len() < 3 {
+                            problems.push(json!({"key":format!("runtime-pct:{}:seed{}:d{}", b, k, depth),
+                                "what":format!("PctScheduler seed {} depth {} on real body {}: {}", k, depth, b, what),
+                                "replay":{"kind":"real-pct","body":b,"seed":k.to_string(),"depth":depth,"iterations":4}}));
+                        }
+                    }
+                }
+            }
+        }
+        k = k.wrapping_add(1);
+    }
+    println!("{}", json!({"cases":cases,"execs":execs,"calls":calls,"nfa":nfa,"problems":problems}));
+}
+
+/// Real-runtime witness for the unreachable-schedule finding: threads A (two atomic ops), B (one),
+/// C (one); how often does each scheduler produce the order a0 b0 a1 c0?
+fn child_witness(a: &[String]) {
+    use shuttle::sync::atomic::{AtomicUsize, Ordering};
+    use std::sync::{Arc, Mutex as StdMutex};
+    vx::common::silence_panics();
+    let iters: usize = a.get(1).and_then(|s| s.parse().ok()).unwrap_or(20000);
+    let orders: Arc<StdMutex<std::collections::BTreeMap<String, u64>>> = Arc::new(StdMutex::new(Default::default()));
+    let mk_body = |orders: Arc<StdMutex<std::collections::BTreeMap<String, u64>>>| {
+        move || {
+            let x = Arc::new(AtomicUsize::new(0));
+            let log: Arc<StdMutex<Vec<&'static str>>> = Arc::new(StdMutex::new(Vec::new()));
+            let mut hs = Vec::new();
+            for (name, evs) in [("A", vec!["a0", "a1"]), ("B", vec!["b0"]), ("C", vec!["c0"])] {
+                let x = x.clone();
+                let log = log.clone();
+                let _ = name;
+                hs.push(shuttle::thread::spawn(move || {
+                    for e in evs {
+                        x.fetch_add(1, Ordering::SeqCst);
+                        log.lock().unwrap().push(e);
+                    }
+                }));
+            }
+            for h in hs {
+                h.join().unwrap();
+            }
+            let o = log.lock().unwrap().join(" ");
+            *orders.lock().unwrap().entry(o).or_insert(0) += 1;
+        }
+    };
+    let mut out = serde_json::Map::new();
+    for depth in 1..=5usize {
+        orders.lock().unwrap().clear();
+        for seed in 0..8u64 {
+            shuttle_engine::Runner::new(PctScheduler::new_from_seed(seed, depth, iters / 8), rec::quiet_config()).run(mk_body(orders.clone()));
+        }
+        let m = orders.lock().unwrap().clone();
+        out.insert(format!("pct_depth_{}", depth), json!({"distinct_orders": m.len(), "a0 b0 a1 c0": m.get("a0 b0 a1 c0").copied().unwrap_or(0), "all": m}));
+    }
+    orders.lock().unwrap().clear();
+    shuttle_engine::Runner::new(shuttle_schedulers::RandomScheduler::new_from_seed(1, iters), rec::quiet_config()).run(mk_body(orders.clone()));
+    let m = orders.lock().unwrap().clone();
+    out.insert("random".into(), json!({"distinct_orders": m.len(), "a0 b0 a1 c0": m.get("a0 b0 a1 c0").copied().unwrap_or(0)}));
+    orders.lock().unwrap().clear();
+    shuttle_engine::Runner::new(shuttle_schedulers::DfsScheduler::new(None, false), rec::quiet_config()).run(mk_body(orders.clone()));
+    let m = orders.lock().unwrap().clone();
+    out.insert("dfs".into(), json!({"distinct_orders": m.len(), "a0 b0 a1 c0": m.get("a0 b0 a1 c0").copied().unwrap_or(0)}));
+    println!("{}", Value::Object(out));
+}
+
+pub fn child(a: &[String]) {
+    match a[0].as_str() {
+        "c11-real" => child_real(a),
+        "c11-witness" => child_witness(a),
+        _ => std::process::exit(2),
+    }
+}
+
+// ------------------------------------------------------------------------------------------------
+// the check
+// ------------------------------------------------------------------------------------------------
+
+pub fn run(ctx: &CheckCtx) -> CheckResult {
+    let _mute = par::StderrMute::new();
+    std::panic::set_hook(Box::new(|_| {}));
+    let mut res = CheckResult::new("model_checking");
+    let thorough = ctx.tier == Tier::Thorough;
+    let nthreads = par::ncpu();
+    let n: u64 = if thorough { 1 << 20 } else { 1 << 16 };
+    let s0 = ctx.seed.wrapping_mul(n);
+    let deadline = ctx.start + if thorough { Duration::from_secs(18 * 60) } else { Duration::from_secs(30) };
+    let mut phases: Vec<(String, f64)> = Vec::new();
+    let mut t_phase = Instant::now();
+    let mut phase = |name: &str, t: &mut Instant| {
+        phases.push((name.to_string(), (t.elapsed().as_secs_f64() * 10.0).round() / 10.0));
+        *t = Instant::now();
+    };
+
+    // snapshot self-test: the Debug-based read-only view must parse and reflect the documented initial state
+    {
+        let s = Sut::new(1, 3, 2);
+        match s.snapshot() {
+            Some(sn) if sn.priorities.len() == 16 && sn.change_points.is_empty() && sn.max_steps == 0 && sn.next_priority == 16 => {}
+            other => res.machinery_errors.push(format!("cannot read PctScheduler internals through Debug: {:?}", other)),
+        }
+    }
+
+    let n_real: u64 = if thorough { 1 << 11 } else { 1 << 7 };
+    let real_thread = std::thread::spawn(move || {
+        let nproc = (par::ncpu() as u64 / 2).max(1);
+        let per = n_real / nproc;
+        let mut jobs = Vec::new();
+        let mut lo = s0;
+        for i in 0..nproc {
+            let hi = if i + 1 == nproc { s0.wrapping_add(n_real) } else { lo.wrapping_add(per) };
+            jobs.push((vec!["c11-real".to_string(), lo.to_string(), hi.to_string()], vec![]));
+            lo = hi;
+        }
+        par::run_children(jobs, nproc as usize, Duration::from_secs(if thorough { 900 } else { 40 }))
+    });
+
+    let mut total = PStats::default();
+    let mut exhaustive = true;
+    let mut fam_rows: Vec<Value> = Vec::new();
+    let mut push_problems = |res: &mut CheckResult, ps: Problems| {
+        for (k, w, r) in ps.into_iter().take(3) {
+            if w.contains("MACHINERY") {
+                res.machinery_errors.push(w);
+            } else {
+                res.finding(k, w, r);
+            }
+        }
+    };
+
+    // F1
+    let n1 = if thorough { n / 4 } else { n / 16 };
+    let (st, ps) = sweep_seeds(s0, n1, nthreads, deadline);
+    exhaustive &= !st.capped;
+    fam_rows.push(json!({"family":"every seed of the interval x fixed abstract programs x depth 1..4 x 4 iterations","seeds":n1,"programs":fixed_programs().len(),"cases":st.cases,"executions":st.executions,"matched_executions":st.matched,"complete":!st.capped}));
+    total.add(&st);
+    push_problems(&mut res, ps);
+    phase("F1 seeds x fixed programs", &mut t_phase);
+
+    // F2
+    let ids0 = Labelling {
+        scheme: 0,
+        universe: 4,
+        yields: true,
+        draws: false,
+    };
+    let rich = Labelling {
+        scheme: 1,
+        universe: 6,
+        yields: true,
+        draws: false,
+    };
+    let create = Labelling {
+        scheme: 1,
+        universe: 20,
+        yields: true,
+        draws: false,
+    };
+    // (family, labelling, ids for the statement-level oracle, task universe, seeds per (tree, depth), depths)
+    // depth > (max multi-choice steps of the family) behaves like depth = that maximum: num_points saturates
+    let mut plans: Vec<(Family, Labelling, usize, usize, u64, Vec<usize>)> = vec![
+        (Family::new(3, 3), ids0.clone(), 3, 16, 1, vec![2, 3]),
+        (Family::new(2, 3), rich.clone(), 6, 16, 64, vec![1, 2, 3]),
+        (Family::new(3, 2), rich.clone(), 6, 16, 32, vec![1, 2, 3, 4]),
+        (Family::new(2, 4), rich.clone(), 6, 16, 8, vec![1, 2, 3]),
+        (Family::new(4, 2), ids0.clone(), 2, 16, 1, vec![1, 2, 3, 4]),
+        // ids >= 16: tasks the scheduler has to create priorities for
+        (Family::new(2, 3), create.clone(), 0, 20, 64, vec![1, 2, 3]),
+        (Family::new(3, 2), create.clone(), 0, 20, 32, vec![1, 2, 3, 4]),
+    ];
+    if thorough {
+        plans.push((Family::new(3, 3), ids0.clone(), 3, 16, 4, vec![1, 4]));
+        plans.push((Family::new(3, 3), rich.clone(), 6, 16, 2, vec![1, 2, 3, 4]));
+        plans.push((Family::new(3, 3), create.clone(), 0, 20, 2, vec![1, 2, 3]));
+        plans.push((Family::new(4, 2), rich.clone(), 6, 16, 4, vec![1, 2, 3, 4, 5]));
+    }
+    for (fam, lab, nfa_ids, universe, seeds_per, depths) in &plans {
+        let (st, ps, trees) = sweep_trees(fam, lab, *nfa_ids, *universe, *seeds_per, depths, s0, n, nthreads, deadline);
+        exhaustive &= !st.capped;
+        fam_rows.push(json!({"family":format!("all trees depth<={} branching<={} with >= 2 leaves", fam.d, fam.b),"labelling":lab.name(),
+            "shapes_in_family":fam.size().to_string(),"trees":trees,"seeds_per_tree_and_depth":seeds_per,"depths":depths,"cases":st.cases,"executions":st.executions,
+            "matched_executions":st.matched,"task_creations":st.creations,"statement_level_oracle":*nfa_ids>0,"complete":!st.capped}));
+        total.add(&st);
+        push_problems(&mut res, ps);
+    }
+    phase("F2 all trees", &mut t_phase);
+
+    // probability
+    let np = if thorough { n / 4 } else { n / 8 };
+    let pr = probability(s0, np, nthreads);
+    phase("probability bound (model enumeration + seed interval)", &mut t_phase);
+    for m in &pr.machinery {
+        res.machinery_errors.push(m.clone());
+    }
+    let prob_rows = pr.rows.clone();
+    for (k, w, r) in pr.problems {
+        res.finding(k, w, r);
+    }
+
+    // real runtime
+    let (mut rcases, mut rexecs, mut rcalls, mut rnfa) = (0u64, 0u64, 0u64, 0u64);
+    for r in real_thread.join().unwrap() {
+        match r {
+            Err(e) => res.machinery_errors.push(format!("runtime child: {}", e)),
+            Ok(co) => match co.json() {
+                None => res.machinery_errors.push(format!(
+                    "runtime child produced no result (status {:?} signal {:?} timed_out {}): {}",
+                    co.status,
+                    co.signal,
+                    co.timed_out,
+                    co.stderr.lines().rev().take(3).collect::<Vec<_>>().join(" | ")
+                )),
+                Some(v) => {
+                    rcases += v["cases"].as_u64().unwrap_or(0);
+                    rexecs += v["execs"].as_u64().unwrap_or(0);
+                    rcalls += v["calls"].as_u64().unwrap_or(0);
+                    rnfa += v["nfa"].as_u64().unwrap_or(0);
+                    for p in v["problems"].as_array().cloned().unwrap_or_default() {
+                        let what = p["what"].as_str().unwrap_or("").to_string();
+                        if what.contains("MACHINERY") {
+                            res.machinery_errors.push(what);
+                        } else {
+                            res.finding(p["key"].as_str().unwrap_or("?"), what, p["replay"].clone());
+                        }
+                    }
+                }
+            },
+        }
+    }
+    phase("waiting for runtime children", &mut t_phase);
+
+    // samples
+    {
+        let uni = Universe::flat(16);
+        let progs = fixed_programs();
+        let (name, tree, nids) = &progs[1];
+        let mut st = PStats::default();
+        let perms = permutations(*nids);
+        if let Ok(v) = pct_checked(s0.wrapping_add(7), 2, 3, tree, &uni, Some((*nids, &perms[..])), true, &mut st) {
+            let mut s = Sut::new(s0.wrapping_add(7), 2, 3);
+            s.new_execution();
+            res.sample(json!({"abstract_program":name,"tree":tree.to_json(),"seed":s0.wrapping_add(7).to_string(),"depth":2,
+                "executions":v.iter().map(|e| json!(e.choices)).collect::<Vec<_>>(),
+                "snapshot_after_first_new_execution": s.snapshot().map(|sn| json!({"order_first16":sn.order(),"change_points":sn.change_points,"max_steps":sn.max_steps}))}));
+        }
+        for r in prob_rows.iter().filter(|r| r["depth"] == 2).take(3) {
+            res.sample(r.clone());
+        }
+    }
+
+    res.cov("states", pr.states);
+    res.cov("transitions", pr.transitions);
+    res.cov("traces_validated_against_impl", total.matched + pr.samples);
+    res.cov("evaluations", total.cases + pr.bugs_checked + rcases);
+    res.cov("distinct_nontrivial", total.cases);
+    res.cov("rule", "a case = (seed, depth, abstract program) run for 3-4 iterations twice (determinism); every iteration >= 2 is compared decision by decision with the reference model started from the scheduler's own (priorities, change points) read through Debug, and with the statement-level oracle (exists a strict order + <= d-1 change points); non-trivial = the program has >= 2 schedules (PCT documents a panic otherwise; such trees are excluded); states = (priority order, change-point set) pairs of the model enumerated for the probability bound, transitions = model decisions taken during that enumeration");
+    res.cov("families", json!(fam_rows));
+    res.cov("probability", json!(prob_rows));
+    res.cov("informational_first_step_event_programs", json!({
+        "note": "NOT part of the verdict: abstract programs whose tasks have an observable effect in their very first scheduled step (in the runtime operations sit behind scheduling points, so a task's first step has none). PCT can demote a task only after it has run once, so some schedules of such programs are unreachable at every depth and the bound fails for them; with the runtime's shape (a prologue step per task) the bound holds for every bug enumerated above",
+        "rows": first_step_event_programs()}));
+    res.cov("probability_clause_label", "model: exact (all n! orders x all change-point sets); implementation: evidence from an exhaustively enumerated seed interval (exact counts, fixed 6.5-sigma tolerance), not a proof over all seeds");
+    res.cov("bugs_checked_against_bound", pr.bugs_checked);
+    res.cov("settled_iterations_sampled", pr.samples);
+    res.cov("probability_executions", pr.executions);
+    res.cov("frequency_cells_checked", pr.cells);
+    res.cov("abstract_executions", total.executions);
+    res.cov("abstract_decisions", total.decisions);
+    res.cov("model_matched_executions", total.matched);
+    res.cov("snapshots_read", total.snapshots);
+    res.cov("statement_level_oracle_executions", total.nfa_checked + rnfa);
+    res.cov("task_creation_decisions", total.creations);
+    res.cov("change_points_fired", total.change_points_fired);
+    res.cov("yield_demotions", total.yield_demotions);
+    res.cov("runtime_cases", rcases);
+    res.cov("runtime_executions", rexecs);
+    res.cov("e3_cross_validation_scheduler_calls_reproduced", rcalls);
+    res.cov("seed_interval", json!({"s0": s0.to_string(), "n": n}));
+    res.cov("phase_seconds", json!(phases));
+    res.cov("exhaustive", exhaustive);
+    res.assumptions.push("PctScheduler internals are read through its derived Debug output (public API, read-only); a format change is reported as a machinery error, never as a verdict".into());
+    res.assumptions.push("k in the bound is the settled estimate = the maximum number of multi-choice steps over all schedules of the program; only iterations whose estimate equals it are sampled".into());
+    res.assumptions.push("bug = the set of schedules satisfying a set of <= 3 cross-task ordering constraints; its depth is the least number of constraints whose non-empty satisfying set lies inside it; bug programs are yield-free counter programs with n <= 4 tasks".into());
+    res.assumptions.push("the first iteration (estimation run) is only counted, as documented; trees with a single schedule are excluded (documented panic)".into());
+    res
+}
+
+// ------------------------------------------------------------------------------------------------
+// replay
+// ------------------------------------------------------------------------------------------------
+
+pub fn replay(doc: &Value) {
+    let r = &doc["replay"];
+    let seed: u64 = r["seed"].as_str().and_then(|s| s.parse().ok()).unwrap_or(0);
+    let depth = r["depth"].as_u64().unwrap_or(1) as usize;
+    let iters = r["iterations"].as_u64().unwrap_or(3) as usize;
+    let _mute = par::StderrMute::new();
+    std::panic::set_hook(Box::new(|_| {}));
+    match r["kind"].as_str() {
+        Some("abstract-pct") => {
+            let tree = ATree::from_json(&r["tree"]);
+            let nids = r["nfa_ids"].as_u64().unwrap_or(0) as usize;
+            let uni = Universe::flat(20);
+            println!("PctScheduler::new_from_seed({}, {}, {}) over tree {}", seed, depth, iters, r["tree"]);
+            // plain run with the internals printed
+            let _ = guarded(|| {
+                let mut s = Sut::new(seed, depth, iters);
+                let mut buf: Vec<&Task> = Vec::new();
+                let mut it = 0;
+                while s.new_execution().is_some() {
+                    it += 1;
+                    let sn = s.snapshot();
+                    println!(
+                        "iteration {}: priorities(order) {:?} change_points {:?} max_steps {:?}",
+                        it,
+                        sn.as_ref().map(|x| x.order()),
+                        sn.as_ref().map(|x| x.change_points.clone()),
+                        sn.as_ref().map(|x| x.max_steps)
+                    );
+                    let mut rec = ExecRec::default();
+                    let _ = crate::tree::drive(&mut s, &tree, &uni, None, false, &mut buf, &mut rec);
+                    println!("   choices {:?}", rec.choices);
+                    if it > iters + 1 {
+                        break;
+                    }
+                }
+                Ok(())
+            });
+            let perms = permutations(nids.min(6));
+            let mut st = PStats::default();
+            let nfa = if nids > 0 && nids <= 6 { Some((nids, &perms[..])) } else { None };
+            println!("oracle verdict: {:?}", guarded(|| pct_checked(seed, depth, iters, &tree, &uni, nfa, true, &mut st)).map(|v| v.len()));
+        }
+        Some("pct-bound") | Some("pct-frequency") => {
+            let prog = CounterProg::from_json(&r["prog"]);
+            let pi = ProgInfo::new(prog.clone());
+            let perms = permutations(prog.n());
+            let (mut s, mut t) = (0u64, 0u64);
+            let (cnt, total) = model_distribution(&pi, depth, &perms, &mut s, &mut t);
+            println!("program {} n={} k={} depth {}: model distribution over schedules ({} (order, change-point set) pairs):", prog.name(), prog.n(), pi.k, depth, total);
+            for (l, c) in cnt.iter().enumerate() {
+                println!("  schedule {:?}: {}/{}", pi.tree.path_to(pi.leaves[l]), c, total);
+            }
+            if r["kind"] == "pct-frequency" {
+                let s0: u64 = r["s0"].as_str().and_then(|s| s.parse().ok()).unwrap_or(0);
+                let n = r["n"].as_u64().unwrap_or(1 << 14);
+                let p = probability(s0, n, par::ncpu());
+                for row in p.rows.iter().filter(|row| row["program"] == prog.name() && row["depth"] == depth as u64) {
+                    println!("implementation over seeds [{}, +{}): {}", s0, n, row);
+                }
+            }
+        }
+        Some("real-pct") => {
+            vx::common::silence_panics();
+            let perms: Vec<Vec<Vec<u8>>> = (0..=6).map(permutations).collect();
+            let b = r["body"].as_str().unwrap_or("atomic-2x2");
+            println!("PctScheduler seed {} depth {} on real body {}: {:?}", seed, depth, b, real_case(b, seed, depth, iters, &perms));
+        }
+        k => {
+            eprintln!("unknown replay kind {:?}", k);
+            std::process::exit(2);
+        }
+    }
+}
